@@ -18,6 +18,29 @@ from ..findings import Report
 TY = [8, 16, 32, 64]
 
 
+LAYOUT_PAIRS = [(16, 16), (8, 32), (64, 8), (32, 64)]
+LAYOUTS = ["rev", "gap", "ext", "xtra"]
+
+
+def layout_members(lay, n, b):
+    """XML members of the dimension composite and (blockLength offset, numInGroup offset, total size) in bytes"""
+    nb, bb = n // 8, b // 8
+    BL = '            <type name="blockLength" primitiveType="uint%d"%%s/>\n' % b
+    NG = '            <type name="numInGroup" primitiveType="uint%d"%%s/>\n' % n
+    if lay == "rev":
+        return NG % "" + BL % "", (nb, 0, nb + bb)
+    if lay == "gap":
+        boff, noff = 3, 3 + bb + 2
+        return BL % (' offset="%d"' % boff) + NG % (' offset="%d"' % noff), (boff, noff, noff + nb)
+    if lay == "ext":
+        return (BL % "" + NG % "" + '            <type name="numGroups" primitiveType="uint16"/>\n'
+                '            <type name="numVarDataFields" primitiveType="uint16"/>\n'), (0, bb, bb + nb + 4)
+    if lay == "xtra":
+        return ('            <type name="lead" primitiveType="uint32"/>\n' + BL % "" + NG % ""
+                + '            <type name="trail" primitiveType="uint8"/>\n'), (4, 4 + bb, 4 + bb + nb + 1)
+    raise ValueError(lay)
+
+
 def make_schema():
     comps = ""
     msgs = ""
@@ -41,6 +64,18 @@ def make_schema():
                      '        </group>\n'
                      '    </sbe:message>\n') % (n, b, mid, n, b)
             mid += 1
+    # dimension composites that are not "blockLength immediately followed by numInGroup": reversed member order, custom
+    # offsets with gaps, the SBE 2.0 style header with numGroups/numVarDataFields, extra members in front and behind
+    for n, b in LAYOUT_PAIRS:
+        for lay in LAYOUTS:
+            comps += '        <composite name="d_%s_%d_%d">\n%s        </composite>\n' % (lay, n, b, layout_members(lay, n, b)[0])
+            for kind, extra in (("mf", ""), ("mn", '            <data name="d" id="2" type="vd"/>\n')):
+                msgs += ('    <sbe:message name="%s_%s_%d_%d" id="%d">\n'
+                         '        <group name="g" id="1" dimensionType="d_%s_%d_%d">\n'
+                         '            <field name="x" id="1" type="uint8"/>\n%s'
+                         '        </group>\n'
+                         '    </sbe:message>\n') % (kind, lay, n, b, mid, lay, n, b, extra)
+                mid += 1
     # trait-level size formulas with a block length > 1 (C05 big products): one flat and one data-carrying group per
     # numInGroup width, explicit blockLength 64
     for n in TY:
@@ -93,7 +128,7 @@ DRIVER = r'''
 #endif
 
 static unsigned long long g_expr = 0, g_cmp = 0, g_mismatch = 0, g_container = 0, g_nested_steps = 0, g_asserts = 0;
-static unsigned long long g_per_pair[16][2];
+static unsigned long long g_per_pair[64][2];
 static int g_samples = 0;
 static const char* g_pair = "";
 static int g_pair_idx = 0;
@@ -212,18 +247,18 @@ static void explore(const G& g, It it, long idx, long size, const unsigned char*
     }
 }
 
-template<typename Msg, int NB, int BB>
+template<typename Msg, int NB, int BB, int BOFF, int NOFF, int DIM>
 static void flat_one(long size, unsigned long long bl, bool checked)
 {
     // [msg header 8][block 0][dimension: blockLength BB bytes, numInGroup NB bytes][size * bl]
-    const std::size_t hdr = 8, dim = NB + BB;
+    const std::size_t hdr = 8, dim = DIM;
     const std::size_t total = hdr + dim + static_cast<std::size_t>(size) * bl;
     std::vector<unsigned char> buf(total + 1);
     for(std::size_t i = 0; i < buf.size(); i++)
         buf[i] = static_cast<unsigned char>(17 + i * 29);
     put_le(&buf[0], 2, 0);
-    put_le(&buf[hdr], BB, bl);
-    put_le(&buf[hdr + BB], NB, static_cast<unsigned long long>(size));
+    put_le(&buf[hdr + BOFF], BB, bl);
+    put_le(&buf[hdr + NOFF], NB, static_cast<unsigned long long>(size));
     unsigned char* data = &buf[hdr + dim];
     Msg m{reinterpret_cast<char*>(buf.data()), total};
     auto g = m.g();
@@ -304,20 +339,20 @@ static void flat_one(long size, unsigned long long bl, bool checked)
         g_container++;
         for(std::size_t i = 0; i < buf.size(); i++)
         {
-            const bool in_num = (i >= hdr + BB && i < hdr + BB + NB);
+            const bool in_num = (i >= hdr + NOFF && i < hdr + NOFF + NB);
             if(!in_num && buf[i] != before[i])
                 bad("resize-touched-other-byte", static_cast<long>(i), 0, 0);
         }
-        if(get_le(&buf[hdr + BB], NB) != static_cast<unsigned long long>(size ? size - 1 : 1))
+        if(get_le(&buf[hdr + NOFF], NB) != static_cast<unsigned long long>(size ? size - 1 : 1))
             bad("resize-value", size, 0, 0);
         g.clear();
         for(std::size_t i = 0; i < buf.size(); i++)
         {
-            const bool in_num = (i >= hdr + BB && i < hdr + BB + NB);
+            const bool in_num = (i >= hdr + NOFF && i < hdr + NOFF + NB);
             if(!in_num && buf[i] != before[i])
                 bad("clear-touched-other-byte", static_cast<long>(i), 0, 0);
         }
-        if(get_le(&buf[hdr + BB], NB) != 0 || g.size() != 0 || !g.empty() || !(g.begin() == g.end()))
+        if(get_le(&buf[hdr + NOFF], NB) != 0 || g.size() != 0 || !g.empty() || !(g.begin() == g.end()))
             bad("clear-value", size, 0, 0);
     }));
     if(as)
@@ -333,11 +368,11 @@ static void flat_one(long size, unsigned long long bl, bool checked)
     }
 }
 
-template<typename Msg, int NB, int BB>
+template<typename Msg, int NB, int BB, int BOFF, int NOFF, int DIM>
 static void nested_one(long size, unsigned long long bl, unsigned variant)
 {
     // entries: [block bl bytes][data: length u8 + payload]; payload lengths vary per entry
-    const std::size_t hdr = 8, dim = NB + BB;
+    const std::size_t hdr = 8, dim = DIM;
     std::vector<std::size_t> lens;
     std::size_t total = hdr + dim;
     for(long i = 0; i < size; i++)
@@ -349,8 +384,8 @@ static void nested_one(long size, unsigned long long bl, unsigned variant)
     for(std::size_t i = 0; i < buf.size(); i++)
         buf[i] = static_cast<unsigned char>(201 + i * 13);
     put_le(&buf[0], 2, 0);
-    put_le(&buf[hdr], BB, bl);
-    put_le(&buf[hdr + BB], NB, static_cast<unsigned long long>(size));
+    put_le(&buf[hdr + BOFF], BB, bl);
+    put_le(&buf[hdr + NOFF], NB, static_cast<unsigned long long>(size));
     std::vector<std::size_t> starts;
     std::size_t off = hdr + dim;
     for(long i = 0; i < size; i++)
@@ -404,15 +439,15 @@ static void nested_one(long size, unsigned long long bl, unsigned variant)
         std::vector<unsigned char> before = buf;
         g.resize(static_cast<typename G::size_type>(size ? size - 1 : 1));
         for(std::size_t i = 0; i < buf.size(); i++)
-            if(!(i >= hdr + BB && i < hdr + BB + NB) && buf[i] != before[i])
+            if(!(i >= hdr + NOFF && i < hdr + NOFF + NB) && buf[i] != before[i])
                 bad("nested-resize-touched-other-byte", static_cast<long>(i), 0, 0);
-        if(get_le(&buf[hdr + BB], NB) != static_cast<unsigned long long>(size ? size - 1 : 1))
+        if(get_le(&buf[hdr + NOFF], NB) != static_cast<unsigned long long>(size ? size - 1 : 1))
             bad("nested-resize-value", size, 0, 0);
         g.clear();
         for(std::size_t i = 0; i < buf.size(); i++)
-            if(!(i >= hdr + BB && i < hdr + BB + NB) && buf[i] != before[i])
+            if(!(i >= hdr + NOFF && i < hdr + NOFF + NB) && buf[i] != before[i])
                 bad("nested-clear-touched-other-byte", static_cast<long>(i), 0, 0);
-        if(get_le(&buf[hdr + BB], NB) != 0 || !g.empty() || !(g.begin() == g.end()))
+        if(get_le(&buf[hdr + NOFF], NB) != 0 || !g.empty() || !(g.begin() == g.end()))
             bad("nested-clear-value", size, 0, 0);
     }));
     if(as)
@@ -427,15 +462,15 @@ static void nested_one(long size, unsigned long long bl, unsigned variant)
 // wire block length a group of 127 / 32767 / 2^31-1 / 2^63-1 entries needs no (little) memory; the laws are checked
 // at sampled positions instead of by full loops.
 static unsigned long long g_large;
-template<typename Msg, int NB, int BB>
+template<typename Msg, int NB, int BB, int BOFF, int NOFF, int DIM>
 static void flat_large(unsigned long long size, unsigned long long bl)
 {
-    const std::size_t hdr = 8, dim = NB + BB;
+    const std::size_t hdr = 8, dim = DIM;
     const std::size_t total = hdr + dim + static_cast<std::size_t>(size * bl);
     std::vector<unsigned char> buf(total + 1);
     put_le(&buf[0], 2, 0);
-    put_le(&buf[hdr], BB, bl);
-    put_le(&buf[hdr + BB], NB, size);
+    put_le(&buf[hdr + BOFF], BB, bl);
+    put_le(&buf[hdr + NOFF], NB, size);
     unsigned char* data = &buf[hdr + dim];
     Msg m{reinterpret_cast<char*>(buf.data()), total};
     auto g = m.g();
@@ -504,15 +539,15 @@ static void flat_large(unsigned long long size, unsigned long long bl)
 // pass a position through difference_type must work: size, size_bytes, operator[], front, back, stepping with ++/--
 // from either end, begin()/end() inequality.  Iterator arithmetic that *needs* a distance of more than the signed
 // maximum (begin()+size(), end()-begin()) is reported under its own site, see known_findings.txt.
-template<typename Msg, int NB, int BB>
+template<typename Msg, int NB, int BB, int BOFF, int NOFF, int DIM>
 static void flat_upper(unsigned long long size, unsigned long long bl, bool walk)
 {
-    const std::size_t hdr = 8, dim = NB + BB;
+    const std::size_t hdr = 8, dim = DIM;
     const std::size_t total = hdr + dim + static_cast<std::size_t>(size * bl);
     std::vector<unsigned char> buf(total + 1);
     put_le(&buf[0], 2, 0);
-    put_le(&buf[hdr], BB, bl);
-    put_le(&buf[hdr + BB], NB, size);
+    put_le(&buf[hdr + BOFF], BB, bl);
+    put_le(&buf[hdr + NOFF], NB, size);
     unsigned char* data = &buf[hdr + dim];
     Msg m{reinterpret_cast<char*>(buf.data()), total};
     auto g = m.g();
@@ -584,7 +619,7 @@ static void flat_upper(unsigned long long size, unsigned long long bl, bool walk
     }
 }
 
-template<typename MF, typename MN, int NB, int BB>
+template<typename MF, typename MN, int NB, int BB, int BOFF = 0, int NOFF = BB, int DIM = NB + BB>
 static void run_pair(const char* name, int idx)
 {
     g_pair = name;
@@ -593,27 +628,27 @@ static void run_pair(const char* name, int idx)
     for(long size = 0; size <= C12_MAXSIZE; size++)
         for(int b = 0; b < 3; b++)
         {
-            flat_one<MF, NB, BB>(size, bls[b], true);
+            flat_one<MF, NB, BB, BOFF, NOFF, DIM>(size, bls[b], true);
             for(unsigned v = 0; v < 3; v++)
-                nested_one<MN, NB, BB>(size, bls[b] ? bls[b] : 1, v); // nested entries hold field x: wire block >= 1... and 0 below
-            nested_one<MN, NB, BB>(size, 0, 1);
+                nested_one<MN, NB, BB, BOFF, NOFF, DIM>(size, bls[b] ? bls[b] : 1, v); // nested entries hold field x: wire block >= 1... and 0 below
+            nested_one<MN, NB, BB, BOFF, NOFF, DIM>(size, 0, 1);
         }
     {
         const unsigned long long dmax = (NB == 8) ? 0x7FFFFFFFFFFFFFFFULL : ((1ULL << (8 * NB - 1)) - 1);
         const unsigned long long blmax = (BB == 8) ? 0xFFFFFFFFFFFFFFFFULL : ((1ULL << (8 * BB)) - 1);
-        flat_large<MF, NB, BB>(dmax, 0);
-        flat_large<MF, NB, BB>(dmax - 1, 0);
+        flat_large<MF, NB, BB, BOFF, NOFF, DIM>(dmax, 0);
+        flat_large<MF, NB, BB, BOFF, NOFF, DIM>(dmax - 1, 0);
         if(NB <= 2)
         {
-            flat_large<MF, NB, BB>(dmax, 1);
-            flat_large<MF, NB, BB>(dmax, 2);
+            flat_large<MF, NB, BB, BOFF, NOFF, DIM>(dmax, 1);
+            flat_large<MF, NB, BB, BOFF, NOFF, DIM>(dmax, 2);
         }
         (void)blmax;
         const unsigned long long umax = (NB == 8) ? 0xFFFFFFFFFFFFFFFFULL : ((1ULL << (8 * NB)) - 1);
-        flat_upper<MF, NB, BB>(umax, 0, NB <= 2);
-        flat_upper<MF, NB, BB>(dmax + 1, 0, NB <= 2);
+        flat_upper<MF, NB, BB, BOFF, NOFF, DIM>(umax, 0, NB <= 2);
+        flat_upper<MF, NB, BB, BOFF, NOFF, DIM>(dmax + 1, 0, NB <= 2);
         if(NB <= 2)
-            flat_upper<MF, NB, BB>(umax, 1, true);
+            flat_upper<MF, NB, BB, BOFF, NOFF, DIM>(umax, 1, true);
     }
     std::printf("DONE pair=%s expr=%llu\n", name, g_expr);
 }
@@ -621,7 +656,7 @@ static void run_pair(const char* name, int idx)
 int main()
 {
 @RUNS@
-    for(int i = 0; i < 16; i++)
+    for(int i = 0; i < C12_NPAIRS; i++)
         std::printf("PAIR %d flat_expr=%llu nested_steps=%llu\n", i, g_per_pair[i][0], g_per_pair[i][1]);
     std::printf("TOTAL expressions=%llu comparisons=%llu container_checks=%llu nested_steps=%llu mismatches=%llu asserts=%llu\n",
                 g_expr, g_cmp, g_container, g_nested_steps, g_mismatch, g_asserts);
@@ -639,7 +674,13 @@ def make_driver():
             runs += '    run_pair<c12::messages::mf_%d_%d<char>, c12::messages::mn_%d_%d<char>, %d, %d>("num=uint%d/bl=uint%d", %d);\n' % (
                 n, b, n, b, n // 8, b // 8, n, b, k)
             k += 1
-    return DRIVER.replace("@RUNS@", runs)
+    for n, b in LAYOUT_PAIRS:
+        for lay in LAYOUTS:
+            boff, noff, dim = layout_members(lay, n, b)[1]
+            runs += ('    run_pair<c12::messages::mf_%s_%d_%d<char>, c12::messages::mn_%s_%d_%d<char>, %d, %d, %d, %d, %d>'
+                     '("num=uint%d/bl=uint%d/header=%s", %d);\n') % (lay, n, b, lay, n, b, n // 8, b // 8, boff, noff, dim, n, b, lay, k)
+            k += 1
+    return DRIVER.replace("@RUNS@", runs).replace("C12_NPAIRS", str(k))
 
 
 def configs(tier):
@@ -663,7 +704,7 @@ def main():
     if gen["rc"] != 0:
         raise C.HarnessError("sbeppc rejected the C12 schema: " + gen["out"][-2000:])
     src = make_driver()
-    rep.rule("16 (numInGroup, blockLength) type pairs over uint8/16/32/64, flat and nested group each; sizes 0..%d; wire "
+    rep.rule("16 (numInGroup, blockLength) type pairs over uint8/16/32/64 with the canonical two-member dimension, plus 4 type pairs x 4 other dimension layouts (reversed member order, custom offsets with gaps, numGroups/numVarDataFields behind, extra members in front and behind), flat and nested group each; sizes 0..%d; wire "
              "block length in {0, compiled=1, 4}; flat: every iterator expression of depth <= %d over ++, --, it++, "
              "it--, +=n, -=n, it+n, n+it, it-n (n in -4..4, inside [0,size]) checked by address and by index, it[n], "
              "(it+n)-n, it-it and all six comparisons for all index pairs, begin/end/front/back/[]/range-for, "
@@ -724,7 +765,10 @@ def main():
     if len(totals) > 1:
         rep.inconc("configurations disagree on the size of the explored scope: %s" % sorted(totals))
     rep.cov["configs"] = [str(c) for c in cfgs]
-    rep.cov["pairs"] = 16
+    rep.cov["pairs"] = 16 + len(LAYOUT_PAIRS) * len(LAYOUTS)
+    rep.cov["header_layouts"] = ["blockLength,numInGroup (all 16 type pairs)"] + [
+        "%s: %s" % (l, {"rev": "numInGroup before blockLength", "gap": "custom offsets with gaps (blockLength at 3, two bytes between the members)",
+                         "ext": "blockLength,numInGroup,numGroups,numVarDataFields", "xtra": "uint32 in front, uint8 behind"}[l]) for l in LAYOUTS]
     rep.cov["max_size"] = maxsize
     rep.cov["depth"] = depth
     rep.cov["exhaustive"] = True
